@@ -3,6 +3,12 @@ HOOK_COMMITS = []
 PENDING = "check not built yet in this round (the design in DESIGN.md applies; runtime monitoring does apply to it)"
 NOT_APPLICABLE = {("C%02d" % i): PENDING for i in range(1, 21)}
 CHECKS = {
+    "C17": {
+        "text": "Held on the executions observed: 3.2*10^3 (quick) to 10^5 (thorough) generated command lines (random subsets, spellings and positions of the documented input/output/variable/exit-status options x filters composed from identity/iteration/empty/error/halt/halt_error/input/inputs/limit/first/$vars/$ARGS/$ENV/input_filename families with stderr markers x 0-6 input values over stdin or 1-3 files: valid, empty, truncated, missing; JSON, raw, raw0, other formats by extension/--from), run with the real jaq binary and compared byte for byte (stdout and stderr in one pipe = order of writes, error-message presence, exit status) with a model of the CLI contract written from cli.dj; a sample is cross-checked against the strace write log.",
+        "design_ref": "DESIGN.md §4 C17, Appendix E",
+        "note": "filter semantics per input value incl. how many inputs were pulled before each output come from the real interpreter via jaqmon (not re-modelled); non-JSON --to bodies come from the library (C14); error-message text not modelled; -n with several files modelled per file; -j modelled as implying raw output",
+        "technique": "runtime monitoring: trace monitor (single-pipe stdout+stderr trace, exit status) vs an executable model of the CLI contract, interpreter in the loop",
+    },
     "C18": {
         "category": "fault_enumeration",
         "text": "Exhaustive per scenario: every system call the real `jaq -i` process issues after opening its first input is one kill point (strace inject SIGKILL before the call executes, effect verified from the run's own trace), plus errno injections at every write/rename/chmod/open/stat/mmap/close/getcwd/unlink call and filter-level failures (error after k outputs, halt, parse error at value k, missing file, writer error), each itself kill-enumerated; after every run the directory must satisfy: every target exactly old or exactly complete-new, pattern new* old*, failing and later files old, success => all new with mode bits preserved and no stray file, bystanders untouched. 12 scenarios in quick, 200 more generated ones in thorough.",
@@ -51,6 +57,12 @@ CHECKS = {
         "design_ref": "DESIGN.md §4 C12, Appendix D.2",
         "note": "judged on documented domains only; trusts vlib.values' order; the manual's verify/flattens definitions are copied into the programs",
         "technique": "runtime monitoring: metamorphic / invariant monitor over the documented equations of the collection built-ins",
+    },
+    "C14": {
+        "text": "Held on the executions observed, except the listed findings: per format (YAML, CBOR, TOML, CSV, TSV), every atom of a fixed pool of reserved words / indicators / number-like spellings (with blank, sign and separator affixes) as root, element, key and member value, boundary numbers, byte strings, non-string keys, shapes just outside the domain (must be rejected) and seeded random trees are written and read back through the filters, the library entry points used by --to/--from (compact and indented) and, for a sample, the real CLI, which must all agree; jaq's output is re-read by independent readers (an RFC 8949 decoder in the driver, tomllib, csv, expat; json for CLI output). XML: generated documents and single-operator mutations of the repository's XHTML examples accepted by expat must satisfy fromxml|toxml|fromxml == fromxml. Witnesses are minimised into canonical keys.",
+        "design_ref": "DESIGN.md §4 C14",
+        "note": "trusts vlib.values.eq, the typed codec, expat as well-formedness oracle, tomllib (TOML 1.0), Python csv; YAML has NO independent reader in this sandbox (judged by jaq's own reader only); TSV number-like strings, CSV []/[null], invalid UTF-8 text, TOML integers beyond 64 bits observed, not judged",
+        "technique": "runtime monitoring: round-trip monitor over three consumer paths (filters, library, CLI) + independent readers",
     },
     "C15": {
         "text": "Held on the executions observed: syntax trees rendered by an independent printer that encodes the manual's precedence table (minimal / full / random redundant parentheses; random whitespace, newlines, CRLF and comments with the odd/even backslash rule between tokens) are parsed by the real lexer+parser and must come back structurally identical: exhaustively every ordered pair of the 24 infix operators and the `as` binding in both groupings (thorough: every triple in 5 groupings), random trees over every node kind (patterns, all object-key forms, interpolation and @formats, label/def/reduce/foreach/try/if-elif, postfix ? and path suffixes under prefix minus) and generated programs; 63 documented shorthands are compared with their expansions by outputs; 86 texts outside the grammar must be rejected at load/compile time; for mutated texts that are accepted, the token sequence of the re-rendered parse must equal the token sequence of the text (nothing dropped, reordered or invented).",
